@@ -12,6 +12,11 @@ Theorem c14_in_span_with_sound : forall basis n gens v c, in_span_with basis n g
   length c = length gens /\ lincomb n c gens = v.
 Proof. exact in_span_with_sound. Qed.
 
+(* the negative answer is certified too: a functional vanishing on every generator but not on v *)
+Theorem c14_not_in_span_cert_sound : forall n gens w v, Forall (fun g => length g = n) gens ->
+  not_in_span_cert gens w v = true -> ~ in_spanP n gens v.
+Proof. exact not_in_span_cert_sound. Qed.
+
 (* P-forall, every code: the naive decoder's answer has minimum weight among all operators of
    length 2n with the given syndrome *)
 Theorem c14_naive_min_weight : forall stabs n s r, naive stabs n s = Some r ->
@@ -54,6 +59,6 @@ Example c14_ex :
   /\ rank [[true;true;false;false]; [false;true;true;false]; [true;false;true;false]] = 2.
 Proof. vm_compute. repeat split; reflexivity. Qed.
 
-Print Assumptions c14_in_span_sound. Print Assumptions c14_in_span_with_sound. Print Assumptions c14_naive_min_weight. Print Assumptions c14_naive_corrects.
+Print Assumptions c14_in_span_sound. Print Assumptions c14_in_span_with_sound. Print Assumptions c14_not_in_span_cert_sound. Print Assumptions c14_naive_min_weight. Print Assumptions c14_naive_corrects.
 Print Assumptions c14_weight_subadditive. Print Assumptions c14_distance_by_search.
 Print Assumptions c14_five_qubit. Print Assumptions c14_steane.
